@@ -62,6 +62,9 @@ Definition directive (minus zero : bool) (w : nat) (c : ascii) : bytes :=
   "%" :: flag_text minus zero ++ width_text w ++ [c].
 Definition ispec (zero : bool) (w : nat) (tc : bytes) : bytes :=
   (if zero then ["0"] else []) ++ width_text w ++ tc.
+(* [0][width].precision[f] *)
+Definition fspec (zero : bool) (w p : nat) (tc : bytes) : bytes :=
+  (if zero then ["0"] else []) ++ width_text w ++ "." :: udec (N.of_nat p) ++ tc.
 
 (* ---------- literals ---------- *)
 (* doubling every '%' of a text *)
